@@ -471,7 +471,7 @@ func replay(tier string, raw json.RawMessage) (bool, string, string) {
 func init() {
 	core.Register(&core.Prop{
 		ID: "C15", Variant: "plain", Shards: shards, Run: run, Replay: replay,
-		Rule: "boundary grid of magnitudes (0, powers of ten and of two with neighbours, the 2^31/2^32/2^63/2^64 extremes) x sign x fraction-digits 0..18 restricted to the stated domain; every ordered pair is compared (Less, Equal) with big.Int arithmetic at a common scale; every number is printed, re-read, converted (Int, FromInt, FromUint); every literal of the grid [sign]int[.frac] (fraction lengths up to and around 18, 255..258, 512) x requested precision 0..18 is parsed and compared with the exact rational; states = distinct (operation, operands); non-trivial = compared with the reference (literals whose extra digits are only trailing zeros are excluded)",
+		Rule:        "boundary grid of magnitudes (0, powers of ten and of two with neighbours, the 2^31/2^32/2^63/2^64 extremes) x sign x fraction-digits 0..18 restricted to the stated domain; every ordered pair is compared (Less, Equal) with big.Int arithmetic at a common scale; every number is printed, re-read, converted (Int, FromInt, FromUint); every literal of the grid [sign]int[.frac] (fraction lengths up to and around 18, 255..258, 512) x requested precision 0..18 is parsed and compared with the exact rational; states = distinct (operation, operands); non-trivial = compared with the reference (literals whose extra digits are only trailing zeros are excluded)",
 		Assumptions: []string{"boundary grids stand in for the 2^64-sized numeric domain", "math/big is the arithmetic reference"},
 	})
 }
